@@ -47,6 +47,8 @@ static void sign_shifted(unsigned char sig[64], const unsigned char *m, size_t m
     crypto_scalarmult_ed25519_base_noclamp(Rb, r);
     unsigned char R0[32]; memcpy(R0, Rb, 32);
     if (T) { unsigned char t2[32]; if (crypto_core_ed25519_add(t2, Rb, T) == 0) memcpy(Rb, t2, 32); }
+    if (recompute_h == 2) Rb[31] ^= 0x80;        /* commitment replaced by its negative, h and S computed consistently with it: S*B - h*A = -R */
+    if (recompute_h == 3) { unsigned char two[32] = { 2 }, t2[32]; if (crypto_scalarmult_ed25519_noclamp(t2, two, Rb) == 0) memcpy(Rb, t2, 32); }   /* ... by 2R */
     crypto_hash_sha512_init(&st); crypto_hash_sha512_update(&st, recompute_h ? Rb : R0, 32); crypto_hash_sha512_update(&st, pk_used ? pk_used : pk, 32); crypto_hash_sha512_update(&st, m, mlen); crypto_hash_sha512_final(&st, hr);
     crypto_core_ed25519_scalar_reduce(k, hr);
     unsigned char ar[32], w[64] = { 0 }; memcpy(w, a, 32); crypto_core_ed25519_scalar_reduce(ar, w);
@@ -113,6 +115,9 @@ int main(int argc, char **argv) {
                   crypto_scalarmult_ed25519_base_noclamp(sp2, rr); memcpy(sp2 + 32, rr, 32); rec_verify_ph("ph_crafted_smallorder_pk", sp2, m, mlen, T, 0);
                   crypto_hash_sha512_init(&hst); crypto_hash_sha512_update(&hst, dom2, 34); crypto_hash_sha512_update(&hst, T, 32); crypto_hash_sha512_update(&hst, pk, 32); crypto_hash_sha512_update(&hst, mh, 64); crypto_hash_sha512_final(&hst, hh);
                   crypto_core_ed25519_scalar_reduce(kk, hh); memcpy(sp2, T, 32); crypto_core_ed25519_scalar_mul(sp2 + 32, kk, ar); rec_verify_ph("ph_crafted_smallorder_R", sp2, m, mlen, pk, 0); } }
+            /* signatures that are consistent in h and S but whose commitment is -R or 2R instead of R: only the group equation rejects them */
+            sign_shifted(sig2, m, mlen, seed, NULL, NULL, 2); rec_verify("R_negated_consistent", sig2, m, mlen, pk, 0);
+            sign_shifted(sig2, m, mlen, seed, NULL, NULL, 3); rec_verify("R_doubled_consistent", sig2, m, mlen, pk, 0);
             /* S = 0 with small-order A: R = identity etc. */
             memset(sig2, 0, 64); sig2[0] = 1; hexto(torsion_hex[4], T); rec_verify("zero_sig_torsion_pk", sig2, m, mlen, T, 0);
             /* non-canonical encoding of the honest R / A: add p to y when y < 19 never happens for random; flip sign bit instead (gives -x) */
